@@ -16,6 +16,7 @@ pub mod c16;
 pub mod c17;
 pub mod cgr;
 pub mod coreeval;
+pub mod fence;
 pub mod oligo;
 pub mod replayf;
 pub mod selfcheck;
@@ -29,6 +30,9 @@ const STAGES: &[(&str, StageFn)] = &[
     ("c01.longruns", c01::longruns),
     ("c01.gaps", c01::gaps),
     ("c01.gigabases", c01::gigabases),
+    ("fence.kmers", fence::kmers),
+    ("fence.min", fence::min),
+    ("fence.vectors", fence::vectors),
     ("c02.codes", c02::codes),
     ("c02.sampled", c02::sampled),
     ("c02.streams", c02::streams),
@@ -132,6 +136,7 @@ fn replay(ctx: &Ctx) -> Stats {
         "c02" => c02::replay(&case, &mut st),
         "c09" => c09::replay(&case, &mut st, false),
         "c18" => c09::replay(&case, &mut st, true),
+        "fence" => fence::replay(&case, &mut st, ctx),
         _ => {
             if !replayf::replay(ctx, &stage, &case, &mut st) {
                 st.inconclusive(format!("no in-process replay for stage {}: re-run the stage with the same seed", stage));
